@@ -105,3 +105,60 @@ func VHPubMany() {
 	check("many subscribers, a fresh subscription after UnsubAll")
 	vCover("pub many done")
 }
+
+// VHPubParked: NPUB (1100, thorough 4000) asynchronous publishes to one subscriber that is not
+// receiving yet, so that more than a thousand hand-offs are parked at once (goroutine budgets,
+// semaphores, pooled senders); a second subscriber with a large buffer takes its copies at once.
+// Pub / PubSlice must return without waiting; then the slow subscriber receives everything:
+// every event exactly once on both channels; afterwards Unsub and Sub still work. One fixed
+// schedule.
+func VHPubParked() {
+	n := vParam("NPUB")
+	ps := &PubSub[int]{}
+	slow := ps.Sub()
+	fast := ps.SubBuf(n + 8)
+	variant := vChoose("variant", 2)
+	for i := 0; i < n; {
+		if variant == 1 && i+3 <= n {
+			ps.PubSlice([]int{i, i + 1, i + 2})
+			i += 3
+		} else {
+			ps.Pub(i)
+			i++
+		}
+	}
+	seen := make([]int, n)
+	for i := 0; i < n; i++ {
+		v := <-slow
+		if v >= 0 && v < n {
+			seen[v]++
+		} else {
+			vAssert(false, "parked publishes: only published events arrive")
+		}
+	}
+	vAssert(vWait(), "parked publishes: every hand-off finishes once the subscriber receives")
+	for i := range seen {
+		vAssert(seen[i] == 1, "parked publishes: the slow subscriber gets every event exactly once")
+	}
+	select {
+	case <-slow:
+		vAssert(false, "parked publishes: nothing is delivered twice")
+	default:
+	}
+	vAssert(len(fast) == n, "parked publishes: the buffered subscriber has every event")
+	got := make([]int, n)
+	for i := 0; i < n; i++ {
+		v := <-fast
+		if v >= 0 && v < n {
+			got[v]++
+		}
+	}
+	for i := range got {
+		vAssert(got[i] == 1, "parked publishes: the buffered subscriber gets every event exactly once")
+	}
+	vAssert(ps.Unsub(slow) == nil, "parked publishes: Unsub works afterwards")
+	extra := ps.SubBuf(1)
+	ps.PubSync(7)
+	vAssert(<-extra == 7 && <-fast == 7, "parked publishes: Sub and PubSync work afterwards")
+	vCover("pub parked done")
+}
